@@ -13,6 +13,8 @@ INT_HELPERS = {
     "TasGrid::Maths::int2log2": lambda i: 1 << (int(i).bit_length() - 1) if int(i) > 0 else 1,
     "TasGrid::Maths::intlog2": lambda i: (int(i).bit_length() - 1) if int(i) > 0 else 0,
     "TasGrid::Maths::int3log3": lambda i: _int3log3(int(i)),
+    "TasGrid::Maths::pow2": lambda i: 2 ** int(i),
+    "TasGrid::Maths::pow3": lambda i: 3 ** int(i),
 }
 
 
